@@ -36,6 +36,10 @@ type runtimeContextManager struct {
 
 	messageHandler Callable
 
+	// The thread that installed the message handler, if known.  If not nil, the
+	// message handler only applies to errors occurring in this thread.
+	messageHandlerThread *Thread
+
 	trackCpu         bool
 	trackMem         bool
 	trackTime        bool
@@ -139,6 +143,7 @@ func (m *runtimeContextManager) PushContext(ctx RuntimeContextDef) {
 	m.status = StatusLive
 	m.killCause = noResource
 	m.messageHandler = ctx.MessageHandler
+	m.messageHandlerThread = nil
 	m.parent = &parent
 	if ctx.GCPolicy == IsolateGCPolicy || ctx.HardLimits.Millis > 0 || ctx.HardLimits.Cpu > 0 || ctx.HardLimits.Memory > 0 {
 		m.weakRefPool = luagc.NewDefaultPool()
